@@ -78,7 +78,7 @@ def parseArgs : List String → Option Parsed
     let cfg : Cfg := { hs := hs, motd := motd, hasHandler := b01 hasH, batched := b01 batched }
     let h : HState := { outbox := outbox, policy := policy, prepareFails := b01 prepFail,
                         failAt := if failAt == "-" then none else failAt.toNat?,
-                        parseErr := (listOf hints).map (· == "1"), passwords := pws,
+                        parseErr := (listOf hints).map (fun x => x.toNat?.getD 0), passwords := pws,
                         batchedShort := if bshort == "-" then none else bshort.toNat? }
     some { cfg, h, input, ihash := b01 ihash }
   | _ => none
